@@ -302,6 +302,9 @@ fn make_case(tg: Vec<u16>, eg: Vec<u16>, sg: Vec<u8>, mg: Vec<u16>) -> Json {
             }
             15 if elems.len() >= 2 => format!("{} | {}", path_to(*r.pick(&elems)), path_to(*r.pick(&elems))),
             16 if !elems.is_empty() => format!("{}//*", path_to(*r.pick(&elems))),
+            // an element together with its own attributes (replacing an element's children leaves its attributes alone)
+            17 | 18 => format!("({0})/self::* | ({0})/@*", expr),
+            19 => r.pick(&["//@*|//@*/..", "//*[@*][1]|//*[@*][1]/@*", "//*[last()]|//*[last()]/@*", "/*|/*/@*"]).to_string(),
             _ => expr,
         };
     }
